@@ -42,6 +42,67 @@ func quiet12() {
 	})
 }
 
+// Scheduling canary: a goroutine that sleeps 5 ms in a loop and records by how much it overslept. A stall of the whole
+// process (CPU starvation, stop-the-world under load) shows up here; a call that is late because of the client's own
+// locking does not. Wall-clock oracles are judged relative to it, and a scenario during which the process itself was
+// stalled is run again instead of being judged.
+var (
+	lagOnce sync.Once
+	lagMax  atomic.Int64
+)
+
+func lagReset() {
+	lagOnce.Do(func() {
+		go func() {
+			for {
+				t := time.Now()
+				time.Sleep(5 * time.Millisecond)
+				if l := int64(time.Since(t) - 5*time.Millisecond); l > lagMax.Load() {
+					lagMax.Store(l)
+				}
+			}
+		}()
+	})
+	lagMax.Store(0)
+}
+
+func lagSeen() time.Duration { return time.Duration(lagMax.Load()) }
+
+// retryStalled runs a scenario; when the process was stalled during it (canary lag above `limit`) or its setup failed /
+// a wall-clock oracle fired while some stall was seen, the scenario is run again (at most five times).
+// failedScenarios counts failing scenarios of this executor process: on a broken tree every scenario runs into its
+// timeouts; after 25 failures the remaining lines of this process are answered at once (each of them is still a failing
+// line, and replaying it alone runs it in full).
+var failedScenarios atomic.Int64
+
+func retryStalled(limit time.Duration, run func() string) string {
+	if failedScenarios.Load() >= 25 {
+		return "FAIL not-run (25 scenarios already failed in this executor; replay this line alone to run it)"
+	}
+	ans := retryStalled1(limit, run)
+	if strings.HasPrefix(ans, "FAIL") {
+		failedScenarios.Add(1)
+	}
+	return ans
+}
+
+func retryStalled1(limit time.Duration, run func() string) string {
+	var ans string
+	for attempt := 0; attempt < 5; attempt++ {
+		lagReset()
+		ans = run()
+		lag := lagSeen()
+		wallClock := strings.HasPrefix(ans, "FAIL setup") || strings.HasPrefix(ans, "FAIL deadline-overrun") ||
+			strings.HasPrefix(ans, "FAIL not-reconnected") || strings.HasPrefix(ans, "FAIL client-not-usable")
+		if lag > limit || (wallClock && lag > 100*time.Millisecond) {
+			time.Sleep(200 * time.Millisecond)
+			continue
+		}
+		break
+	}
+	return ans
+}
+
 func atoi12(s string) int {
 	v, err := strconv.Atoi(s)
 	if err != nil {
@@ -576,7 +637,7 @@ func (sc *scenario) checkResults(res []callResult) string {
 				return fmt.Sprintf("FAIL payload-of-another-id call=%d tag=%d", k, tag)
 			}
 		}
-		if r.over > time.Second {
+		if r.over > time.Second+5*lagSeen() {
 			return fmt.Sprintf("FAIL deadline-overrun call=%d over=%v", k, r.over)
 		}
 	}
@@ -584,12 +645,22 @@ func (sc *scenario) checkResults(res []callResult) string {
 }
 
 // exClientRun: a scenario whose external history is determined by the script: the client timeout is generous (2 s) and
-// calls that the script never answers in time (x, m, L) carry their own 80 ms deadline, so a loaded machine does not
+// calls that the script never answers in time (x, m, L) carry their own 50 ms deadline, so a loaded machine does not
 // change the result classes. The model computes the same line from the script.
 //
 //	args: seed nconn timeoutMs callers perCaller script
 func exClientRun(a []string) string {
 	quiet12()
+	// result classes can only change when the process stalls for about as long as the 2 s client timeout — or, in the
+	// scenarios with late answers, for the 200 ms between a caller's 50 ms deadline and the late answer
+	limit := time.Second
+	if len(a) > 5 && strings.Contains(a[5], "L") {
+		limit = 120 * time.Millisecond
+	}
+	return retryStalled(limit, func() string { return exClientRun1(a) })
+}
+
+func exClientRun1(a []string) string {
 	seed, nconn, tmo, callers, per := int64(atoi12(a[0])), atoi12(a[1]), atoi12(a[2]), atoi12(a[3]), atoi12(a[4])
 	acts := parseScript(a[5])
 	if len(acts) != callers*per {
@@ -599,7 +670,7 @@ func exClientRun(a []string) string {
 	if err != nil {
 		return "FAIL setup " + err.Error()
 	}
-	sc.short = 80 * time.Millisecond
+	sc.short = 50 * time.Millisecond
 	sc.shortFor = func(a act) bool { return a.kind == 'x' || a.kind == 'm' || a.kind == 'L' }
 	res := sc.runCallers(callers, per)
 	for _, a := range acts {
@@ -633,6 +704,10 @@ func exClientRun(a []string) string {
 //	args: seed nconn timeoutMs callers perCaller script idleDrops rejects
 func goClientChaos(a []string) string {
 	quiet12()
+	return retryStalled(3*time.Second, func() string { return goClientChaos1(a) })
+}
+
+func goClientChaos1(a []string) string {
 	seed, nconn, tmo, callers, per := int64(atoi12(a[0])), atoi12(a[1]), atoi12(a[2]), atoi12(a[3]), atoi12(a[4])
 	acts := parseScript(a[5])
 	idleDrops, rejects := atoi12(a[6]), atoi12(a[7])
@@ -933,14 +1008,22 @@ func shape(g *h.G) (nconn, callers, per int) {
 // runArgs: deterministic-outcome scenario
 func runArgs(g *h.G) []string {
 	nconn, callers, per := shape(g)
+	if per > 2 {
+		per = 1 + g.Rng.Intn(2)
+	}
 	tmo := 2000
 	acts := make([]act, callers*per)
+	late := g.Rng.Intn(8) == 0 // scenarios with late answers wait for them at the end: one in eight
 	for i := range acts {
 		switch g.Rng.Intn(16) {
 		case 0:
 			acts[i] = act{kind: 'x'}
 		case 1:
-			acts[i] = act{kind: 'L'}
+			if late {
+				acts[i] = act{kind: 'L'}
+			} else {
+				acts[i] = act{kind: 'x'}
+			}
 		case 2:
 			acts[i] = act{kind: 'm'}
 		case 3, 4:
@@ -952,7 +1035,7 @@ func runArgs(g *h.G) []string {
 		case 9:
 			acts[i] = act{kind: 'o'}
 		case 10, 11:
-			acts[i] = act{kind: 'd', ms: 1 + g.Rng.Intn(60)}
+			acts[i] = act{kind: 'd', ms: 1 + g.Rng.Intn(40)}
 		default:
 			acts[i] = act{kind: 'n'}
 		}
@@ -968,8 +1051,8 @@ func runArgs(g *h.G) []string {
 // chaosArgs: delays around the deadline, drops mid-request / idle / during reconnect
 func chaosArgs(g *h.G, slow bool) []string {
 	nconn, callers, per := shape(g)
-	per += 2
-	tmo := g.Pick(50, 80, 120, 200, 300)
+	per++
+	tmo := g.Pick(40, 60, 80, 120)
 	acts := make([]act, callers*per)
 	drops := 0
 	for i := range acts {
@@ -1014,9 +1097,9 @@ func chaosArgs(g *h.G, slow bool) []string {
 }
 
 func genC12(g *h.G) {
-	nRun := g.Scale(480, 5000)
-	nChaos := g.Scale(120, 3000)
-	nSlow := g.Scale(8, 150)
+	nRun := g.Scale(1000, 8000)
+	nChaos := g.Scale(400, 4000)
+	nSlow := g.Scale(6, 150)
 	for i := 0; i < nRun; i++ {
 		args := runArgs(g)
 		g.NonTrivial("r/" + strings.Join(args, "/"))
